@@ -66,7 +66,7 @@ def scenarios(rng, g):
     base = g.schema()
     doc = g.document(base)
     kind = rng.choice(['plain', 'plain', 'type', 'hash', 'string', 'context', 'subclass_rule', 'subclass_type', 'corrupt',
-                       'corrupt', 'corrupt', 'corrupt', 'nested_list', 'nested_list', 'registry', 'recursive', 'role', 'role', 'nest', 'nest'])
+                       'corrupt', 'corrupt', 'corrupt', 'nested_list', 'nested_list', 'registry', 'recursive', 'recursive_rules', 'role', 'role', 'nest', 'nest'])
     e = lambda: rng.choice(['ctor', 'setter', 'update'])
     if kind == 'plain':
         other = g.schema()
@@ -141,6 +141,13 @@ def scenarios(rng, g):
         return kind, [('V', {'root': {'type': 'dict', 'schema': 'node0'}}, {}, e(), None, {'schemas': {'node0': node}}),
                       ('V', {'x': {'type': 'list', 'schema': {'type': 'dict', 'schema': 'node0'}}}, {}, e(),
                        'cache_part_of_rejected_recursive_definition')]
+    if kind == 'recursive_rules':
+        # a rules set that refers to itself from within a `schema` mapping and is malformed elsewhere: rejected; the inner
+        # mapping of the rejected definition, submitted on its own afterwards, is rejected as well
+        node = {'type': 'dict', 'schema': {'child': 'node1'}, 'required': 'yes'}
+        return kind, [('V', {'root': 'node1'}, {}, e(), None, {'rules': {'node1': node}}),
+                      ('V', {'x': {'type': 'dict', 'schema': {'child': 'node1'}}}, {}, e(), None),
+                      ('V', {'y': {'type': 'list', 'schema': {'type': 'dict', 'schema': {'child': 'node1'}}}}, {}, e(), None)]
     if kind == 'type':
         a = {'f': {'type': 'dict', 'valuesrules': {'required': True}}}
         b = {'f': {'type': 'dict', 'valuesrules': {'required': 1}}}
@@ -186,6 +193,58 @@ def run_history(steps, clear_every):
     finally:
         real.clear_global_state()
     return outs
+
+
+def kept_validator(ctx):
+    """histories on validators that are kept: a schema that refers to a registry entry (first checked, then found in the
+    cache) is extended after the entry was redefined or removed; every submission warm vs. the cache cleared before it"""
+    good = {'x': {'type': 'integer'}}
+    bad = {'x': {'type': 'no_such_type'}}
+    for how in ('setitem', 'update', 'setter'):
+        for change in ('redefined', 'removed'):
+            for kind in ('schema', 'rules'):
+                outs = []
+                for clear_every in (False, True):
+                    Validator.clear_caches()
+                    real.clear_global_state()
+                    try:
+                        if kind == 'schema':
+                            schema_registry.add('S0', copy.deepcopy(good))
+                            ref = {'type': 'dict', 'schema': 'S0'}
+                        else:
+                            rules_set_registry.add('S0', {'type': 'integer'})
+                            ref = {'type': 'list', 'schema': 'S0'}
+                        Validator({'a': copy.deepcopy(ref)})
+                        if clear_every:
+                            Validator.clear_caches()
+                        b = Validator({'b': copy.deepcopy(ref)})
+                        reg = schema_registry if kind == 'schema' else rules_set_registry
+                        reg.remove('S0')
+                        if change == 'redefined':
+                            reg.add('S0', copy.deepcopy(bad) if kind == 'schema' else {'type': 'no_such_type'})
+                        if clear_every:
+                            Validator.clear_caches()
+                        try:
+                            if how == 'setitem':
+                                b.schema['c'] = copy.deepcopy(ref)
+                            elif how == 'update':
+                                b.schema.update({'c': copy.deepcopy(ref)})
+                            else:
+                                b.schema = {'b': copy.deepcopy(ref), 'c': copy.deepcopy(ref)}
+                            outs.append('accepted')
+                        except SchemaError:
+                            outs.append('schema_error')
+                        except Exception as e:
+                            outs.append('raised ' + type(e).__name__)
+                    finally:
+                        real.clear_global_state()
+                        Validator.clear_caches()
+                ctx.dist('kept_validator', '%s/%s/%s: %s' % (kind, change, how, outs[0]))
+                if outs[0] != outs[1]:
+                    ctx.fail('C08 oracle: a kept validator whose schema refers to the %s-registry entry S0 is extended (%s) after S0 '
+                             'was %s: warm outcome %r, outcome with the cache cleared before every submission %r'
+                             % (kind, how, change, outs[0], outs[1]),
+                             {'scenario': 'kept_validator', 'registry': kind, 'change': change, 'entry': how})
 
 
 def variants(rng, m):
@@ -235,6 +294,7 @@ def run(ctx, n):
                            'mapping_to_frozenset + hash identify on the value universe')
     rng = random.Random(ctx.seed * 41 + 3)
     from .. import gen
+    kept_validator(ctx)
     with Driver() as drv:
         for i in range(n):
             g = gen.Gen(gen.case_rng(ctx.seed, i), max_depth=2, normalization=0.2, logical=0.3)
